@@ -15,6 +15,10 @@ def g(o, name):
 class Monitor(object):
     def __init__(self, static_voters=None):
         self.records = []
+        self.stuck_reported = {}
+        self.dump_seen = {}
+        self.term_regress_reported = {}
+        self.kill_infos = []
         self.attributed = []      # (finding id, property, message, step)
         self.journaled = False
         self.votes = {}           # (voter, term) -> (candidate, incarnation)
@@ -53,8 +57,10 @@ class Monitor(object):
             return
         # a journaled voter that forgot its term/vote over a restart (known finding KF-C07-1) explains later
         # safety records of the same trace; before that trigger nothing is excused
-        if finding is None and 'kf_c07_1' in self.trigger and prop in ('C01', 'C02', 'C03', 'C04', 'C06', 'C10'):
+        if finding is None and 'kf_c07_1' in self.trigger and prop in ('C01', 'C02', 'C03', 'C04', 'C10'):
             finding = 'KF-C07-1'
+        if finding is None and any(k.startswith('kf_c08_1') for k in self.trigger) and prop in ('C01', 'C02', 'C04'):
+            finding = 'KF-C08-1'       # acknowledged entries were lost by a kill inside the journal head drop
         if finding is not None:
             self.attributed.append((finding, prop, msg, self.step))
             return
@@ -89,6 +95,20 @@ class Monitor(object):
         sim = rec.sim
         k = ev[0]
         self.journaled = bool(rec.cfg.get('journal'))
+        if k in ('tickkill', 'deliverkill'):
+            if sim.kill_info is not None:
+                # the process died inside the step: what it sent before dying was sent
+                n = ev[1] if k == 'tickkill' else ev[2]
+                self.kill_infos.append(dict(sim.kill_info, node=n, step=self.step))
+                if sim.abandoned is not None:
+                    self.note_acks(sim, n, sim.abandoned)
+                self.prev.pop(n, None)
+                self.prev_log.pop(n, None)
+                if sim.kill_info.get('in_delete_to'):
+                    self.trigger.setdefault('kf_c08_1:%d' % n, self.step)
+                return
+            k = 'tick' if k == 'tickkill' else 'deliver'
+            ev = ((k,) + tuple(ev[1:-1]))
         if k == 'kill':
             self.prev.pop(ev[1], None)
             self.prev_log.pop(ev[1], None)
@@ -360,6 +380,30 @@ class Monitor(object):
             self.rec('C20', 'node %d: hasQuorum is %r but it is connected to %d of %d other voters' % (nid, hq, len(conn), len(others)))
 
 
+    def note_acks(self, sim, nid, o):
+        """what the node acknowledged: success replies, and as leader everything it counted itself for"""
+        log = self.log_of(o)
+        ack = self.acked.setdefault(nid, {})
+        for s_, d_, m in sim.sent:
+            if s_ == nid and m['type'] == 'next_node_idx' and m['success']:
+                upto = m['next_node_idx'] - 1
+                for e in log:
+                    if e[1] <= upto:
+                        ack[e[1]] = e[2]
+        if g(o, 'raftState') == 2:
+            # a leader counts itself for what it has sent out or committed
+            sent_upto = g(o, 'raftCommitIndex')
+            for s_, d_, m in sim.sent:
+                if s_ == nid and m['type'] == 'append_entries' and m.get('entries'):
+                    sent_upto = max(sent_upto, m['entries'][-1][1])
+            for e in log:
+                if e[1] <= sent_upto:
+                    ack[e[1]] = e[2]
+        # entries that were overwritten by a legitimate leader are no longer owed
+        for e in log:
+            if e[1] in ack and ack[e[1]] != e[2]:
+                ack[e[1]] = e[2]
+
     # ---- C06 / C07: journaled nodes across restarts ----------------------------------------------------
     def check_c06_c07(self, rec, sim, ev, nid, o):
         if nid >= RO_BASE:
@@ -385,36 +429,35 @@ class Monitor(object):
                 elif inc0 == inc:
                     self.rec('C07', 'node %d granted its vote in term %d to both %d and %d' % (nid, t, other, cand))
             self.votes.setdefault(key, (cand, inc))
-        # terms: never follow an older term than one already acknowledged
+        # terms: never follow a leader or candidate of an older term than one already acknowledged
         mt = self.max_term_seen.get(nid)
         if mt is not None and term < mt[0]:
+            acted = [m['type'] for s_, d_, m in sim.sent if s_ == nid and
+                     (m['type'] in ('response_vote', 'request_vote') or (m['type'] == 'next_node_idx' and m['success']))]
             if mt[1] != inc and self.journaled:
-                self.trigger.setdefault('kf_c07_1', self.step)
-                if not getattr(self, '_term_regress_reported', {}).get((nid, inc)):
-                    self.__dict__.setdefault('_term_regress_reported', {})[(nid, inc)] = True
-                    self.rec('C07', 'node %d runs in term %d after a restart although it had acknowledged term %d' % (nid, term, mt[0]),
-                             finding='KF-C07-2')
+                if acted:
+                    self.trigger.setdefault('kf_c07_1', self.step)
+                    if not self.term_regress_reported.get((nid, inc)):
+                        self.term_regress_reported[(nid, inc)] = True
+                        self.rec('C07', 'node %d acts (%s) in term %d after a restart although it had acknowledged term %d'
+                                 % (nid, acted[0], term, mt[0]), finding='KF-C07-2')
             elif mt[1] == inc:
                 self.rec('C07', 'node %d: term moved backwards %d -> %d' % (nid, mt[0], term))
         if mt is None or term >= mt[0]:
             self.max_term_seen[nid] = (term, inc)
         if not self.journaled:
             return
-        # what the node acknowledged: success replies, and as leader everything it counted itself for
+        self.note_acks(sim, nid, o)
         ack = self.acked.setdefault(nid, {})
-        for s_, d_, m in sim.sent:
-            if m['type'] == 'next_node_idx' and m['success']:
-                upto = m['next_node_idx'] - 1
-                for e in log:
-                    if e[1] <= upto:
-                        ack[e[1]] = e[2]
-        if g(o, 'raftState') == 2:
-            for e in log:
-                ack[e[1]] = e[2]
-        # entries that were overwritten by a legitimate leader are no longer owed
-        for e in log:
-            if e[1] in ack and ack[e[1]] != e[2]:
-                ack[e[1]] = e[2]
+        # a node that can never apply again: its journal starts beyond the position it has to apply next
+        if ev[0] == 'tick' and log and g(o, 'raftCommitIndex') > g(o, 'raftLastApplied') and \
+                g(o, 'raftLastApplied') + 1 < log[0][1] and not self.stuck_reported.get((nid, inc)):
+            self.stuck_reported[(nid, inc)] = True
+            d18 = rec.cfg.get('journal') and not rec.cfg.get('dump')
+            self.rec('C06', 'node %d cannot rebuild its state: applied index %d, journal starts at %d'
+                     % (nid, g(o, 'raftLastApplied'), log[0][1]), finding='KF-C06-D18' if d18 else None)
+        # C09: a dump file is always a complete old or new snapshot
+        self.check_dump_file(rec, sim, nid)
         # recovery check: right after the restart (the first tick loads the dump and trims the journal)
         pend = getattr(self, 'pending_recovery', set())
         if nid in pend and ev[0] == 'tick':
@@ -422,7 +465,35 @@ class Monitor(object):
             base = log[0][1] if log else 0
             lost = [i for i, t in sorted(ack.items()) if i >= base and (self.entry_at(log, i) is None or self.entry_at(log, i)[2] != t)]
             if lost:
-                self.rec('C06', 'node %d restarted without acknowledged entries %r (journal now covers %d..%d)'
-                         % (nid, lost[:6], base, log[-1][1] if log else 0))
+                last_kill = [x for x in self.kill_infos if x['node'] == nid]
+                inside = bool(last_kill and last_kill[-1].get('in_delete_to'))
+                self.rec('C06', 'node %d restarted without acknowledged entries %r (journal now covers %d..%d)%s'
+                         % (nid, lost[:6], base, log[-1][1] if log else 0,
+                            ' after a kill inside the journal head drop' if inside else ''),
+                         finding='KF-C08-1' if inside else None)
+                if inside:
+                    self.trigger.setdefault('kf_c08_1_effect', self.step)
             for i in [i for i in ack if i > (log[-1][1] if log else 0)]:
                 del ack[i]
+
+
+    def check_dump_file(self, rec, sim, nid):
+        import os, gzip, pickle
+        if rec.cfg.get('dump') != 'file' or sim.workdir is None:
+            return
+        fn = os.path.join(sim.workdir, 'dump_%d' % nid)
+        try:
+            st = os.stat(fn)
+        except OSError:
+            return
+        sig = (st.st_mtime_ns, st.st_size, st.st_ino)
+        if self.dump_seen.get(nid) == sig:
+            return
+        self.dump_seen[nid] = sig
+        try:
+            with open(fn, 'rb') as f:
+                with gzip.GzipFile(fileobj=f) as gz:
+                    data = pickle.load(gz)
+            assert len(data) == 4
+        except Exception as e:
+            self.rec('C09', 'dump file of node %d is not a complete snapshot (%s)' % (nid, type(e).__name__))
